@@ -68,6 +68,15 @@ Theorem C09_undefined : forall fuel inc macroses line name ops st,
   lookup name macroses = None -> macro_expand fuel inc macroses line name ops st = Err (Some line).
 Proof. exact undefined_macro. Qed.
 
+(** (3b) THE BODY IS KEPT AS THE TEXT THAT WAS WRITTEN.  The lines between .macro and the first .endm / .endmacro are recorded
+    verbatim, number and text (no case folding, no comment stripping, nothing looked at but whether a line is the end of the
+    macro), and the loop goes on behind that line: what a call substitutes into and re-reads is exactly what the programmer wrote. *)
+Require Import AvraV.Proofs.CondProofs.
+Theorem C09_body_verbatim : forall body e rest,
+  forallb (fun ln => negb (is_endm ln)) body = true -> is_endm e = true ->
+  skip_macro (body ++ e :: rest) [] = (body, rest).
+Proof. intros body e rest Hb He. exact (skip_macro_body body e rest Hb He []). Qed.
+
 (** (4) THE SPLICE.  In a code segment, a call of a macro whose substituted body contains no segment
     directive, .org or .include line (labels, instructions, data, .set/.def/.equ, messages, conditionals
     and nested macro definitions are all allowed) is processed by pass 0 as: read the substituted body as
